@@ -75,13 +75,20 @@ func VerifPlainDirDeterminism() {
 
 // fragReader delivers its content in fragments of explorer-chosen sizes.
 type fragReader struct {
-	data []byte
-	max  int
+	data  []byte
+	max   int
+	empty bool // an empty fragment (0, nil) has been delivered
 }
 
 func (f *fragReader) Read(p []byte) (int, error) {
 	if len(f.data) == 0 {
 		return 0, io.EOF
+	}
+	if !f.empty && verifrt.Choose(2) == 1 {
+		// the io.Reader contract allows (0, nil): nothing happened, not the end
+		f.empty = true
+		verifrt.Reach("empty-fragment")
+		return 0, nil
 	}
 	n := 1 + verifrt.Choose(min(f.max, min(len(p), len(f.data))))
 	copy(p, f.data[:n])
